@@ -582,7 +582,7 @@ VResult o_conservation(const VCase &c, const bool walls, const bool only_physica
     r.fail(S.error);
     return r;
   }
-  Flat ref(P);
+  Flat ref(P, L.ns);
   bool exempt = false;
   const int nsteps = (int)c.i("nsteps");
   for (int step = 0; step < nsteps; ++step) {
@@ -655,7 +655,7 @@ VResult o_fixed_point(const VCase &c) {
     r.fail(S.error);
     return r;
   }
-  Flat ref(P);
+  Flat ref(P, L.ns);
   const double dt = choose_dt(c, S, r);
   const StepInfo info = ref.step(dt);
   label_step(info, r);
@@ -730,27 +730,8 @@ VResult o_fixed_point(const VCase &c) {
 // executions that differ in the order of the flux sum (exact geometry) or also
 // in the last bits of the cell size (generic geometry)
 std::vector<A5> compare_tolerances(const Problem &P, const StepInfo &info,
-                                   const double loose,
-                                   const std::vector<HydroVariables> *ref = nullptr,
-                                   const std::vector<HydroVariables> *perturbed = nullptr) {
+                                   const double loose) {
   std::vector<A5> tol = info.tol;
-  if (ref && perturbed) {
-    // arbitrary box sides: the cell sizes of a layout differ from those of the
-    // reference in the last bits; how much that matters for this state is
-    // measured by a second reference execution with the sides moved by a few
-    // ulps (ill-conditioned states, e.g. cold hypersonic cells whose pressure
-    // is round-off noise, amplify such differences by many orders)
-    A5 sens = {{0, 0, 0, 0, 0}};
-    for (int g = 0; g < P.N; ++g)
-      for (int j = 0; j < 5; ++j)
-        sens[j] = std::max(sens[j], std::abs((*ref)[g].conserved(j) -
-                                             (*perturbed)[g].conserved(j)));
-    const double ps = std::max(sens[1], std::max(sens[2], sens[3]));
-    sens[1] = sens[2] = sens[3] = ps;
-    for (int g = 0; g < P.N; ++g)
-      for (int j = 0; j < 5; ++j)
-        tol[g][j] += 256. * sens[j];
-  }
   if (loose > 0.) {
     A5 scale = {{0, 0, 0, 0, 0}};
     for (int g = 0; g < P.N; ++g)
@@ -811,17 +792,7 @@ VResult o_layout(const VCase &c) {
   label_problem(c, P, r);
   const int nl = (int)c.iv("strategy").size();
   const int nsteps = (int)c.i("nsteps");
-  const double loose = P.exact_geometry ? 0. : 1e-8;
-  Flat ref0(P);
-  // (arbitrary box sides only) the same problem with the sides moved by a few ulps
-  Problem Pp = P;
-  Pp.side[0] *= 1. + 8. * EPS;
-  Pp.side[1] *= 1. - 8. * EPS;
-  Pp.side[2] *= 1. + 16. * EPS;
-  Flat refp0(Pp);
   double dt0 = 0.;
-  StepInfo info0;
-  std::vector<HydroVariables> after0, afterp0;
   std::set<std::array<int, 3>> partitions;
   for (int l = 0; l < nl; ++l) {
     LayoutSpec L = layout_of(c, l);
@@ -833,43 +804,22 @@ VResult o_layout(const VCase &c) {
       return r;
     }
     const Schedule sch0 = L.sch;
-    Flat refl(P), reflp(Pp); // references of the later steps of this layout
+    // the flat reference execution (it rounds the cell size like this layout)
+    Flat ref(P, L.ns);
     for (int step = 0; step < nsteps; ++step) {
+      // later steps: the reference restarts from the state this layout reached
+      // (differences do not accumulate)
+      if (step > 0)
+        ref.load(S.cell);
       double dt;
-      const StepInfo *info;
-      const std::vector<HydroVariables> *want, *wantp = nullptr;
-      StepInfo infol;
       if (step == 0) {
-        // all layouts start from the same state: one reference step
-        if (l == 0) {
+        if (l == 0)
           dt0 = choose_dt(c, S, r);
-          info0 = ref0.step(dt0);
-          after0 = ref0.c;
-          label_step(info0, r);
-          if (!P.exact_geometry) {
-            refp0.step(dt0);
-            afterp0 = refp0.c;
-          }
-        }
-        dt = dt0;
-        info = &info0;
-        want = &after0;
-        wantp = &afterp0;
-      } else {
-        // later steps: the reference restarts from the state this layout
-        // reached (differences do not accumulate)
-        refl.load(S.cell);
+        dt = dt0; // every layout advances the same initial state by the same step
+      } else
         dt = choose_dt(c, S, r);
-        infol = refl.step(dt);
-        label_step(infol, r);
-        info = &infol;
-        want = &refl.c;
-        if (!P.exact_geometry) {
-          reflp.load(S.cell);
-          reflp.step(dt);
-          wantp = &reflp.c;
-        }
-      }
+      const StepInfo info = ref.step(dt);
+      label_step(info, r);
       if (!S.step(dt, L.sch, L.taskgraph)) {
         r.fail(S.error);
         return r;
@@ -880,12 +830,8 @@ VResult o_layout(const VCase &c) {
         return r;
       }
       int skipped = 0;
-      const std::string diff =
-          compare_states(P, S, *want,
-                         P.exact_geometry
-                             ? compare_tolerances(P, *info, 0.)
-                             : compare_tolerances(P, *info, loose, want, wantp),
-                         ref0.vol, nullptr, nullptr, &skipped);
+      const std::string diff = compare_states(P, S, ref.c, info.tol, ref.vol,
+                                              nullptr, nullptr, &skipped);
       if (!diff.empty()) {
         r.fail(fmt("step %d: layout %dx%dx%d (%s, order %d) differs from the "
                    "plain sequential execution: ",
@@ -958,7 +904,7 @@ VResult o_mirror(const VCase &c) {
     r.fail(S.error + T.error);
     return r;
   }
-  Flat refP(P), refQ(Q);
+  Flat refP(P, L.ns), refQ(Q, L.ns);
   const double dt = choose_dt(c, S, r);
   const StepInfo ip = refP.step(dt), iq = refQ.step(dt);
   label_step(ip, r);
@@ -1325,9 +1271,9 @@ int main(int argc, char **argv) {
                "of a second step restarts from the state the layout reached): "
                "conserved and primitive "
                "variables of every cell agree with the flat reference execution "
-               "(own geometry, every face once by plain loops) within 16 eps "
-               "(dt*sum|face flux of the cell| + |U_old| + |U_new|) (exact "
-               "geometry; +1e-8 of the global scale for arbitrary box sides), "
+               "(own face enumeration and geometry, every face once by plain "
+               "loops; cell size rounded as the layout rounds it) within 16 eps "
+               "(dt*sum|face flux of the cell| + |U_old| + |U_new|), "
                "propagated to the primitives; the first layout is executed twice "
                "and must be bit-identical. Non-trivial = >=2 different "
                "partitions and non-uniform state.",
